@@ -114,6 +114,11 @@ def build_traces(path, tier, seed):
         we, _ = gen.record(rng, n)
         theta = [0.0, 90.0, 180.0, 45.0, 270.0, rng.uniform(-360, 720), rng.uniform(0, 180), -90.0, -270.0, -450.0, -180.0, 360.0, 450.0, -45.0][int(rng.integers(14))]
         theta_arg = [float(theta), np.float64(theta), int(theta) if float(theta).is_integer() else float(theta)][int(rng.integers(3))]
+        if float(theta).is_integer() and rng.integers(3) == 0:
+            # whole-degree angles in the narrow scalar types a table of azimuths may be held in
+            cands = [t_ for t_ in (np.int8, np.uint8, np.int16, np.uint16, np.int32, np.float32) if np.can_cast(np.min_scalar_type(int(theta)), t_)]
+            if cands:
+                theta_arg = cands[int(rng.integers(len(cands)))](theta)
         theta = float(theta)
         if i % 3 == 1:       # integer-count records / lists of ints
             ns = np.round(ns / (np.max(np.abs(ns)) + 1e-300) * 50).astype(np.int64)
@@ -123,7 +128,9 @@ def build_traces(path, tier, seed):
         a, b = eqsig.AccSignal(ns, 0.01), eqsig.AccSignal(we, 0.01)
         ns, we = np.asarray(ns, dtype=float), np.asarray(we, dtype=float)
         out = multiple.combine_at_angle(a, b, theta_arg).values
-        out180 = multiple.combine_at_angle(a, b, theta_arg + 180).values
+        # theta + 180 is formed in floating point (uint8(180) + 180 would wrap around in the CALLER's arithmetic)
+        t180 = float(theta) + 180.0
+        out180 = multiple.combine_at_angle(a, b, t180 if rng.integers(2) else np.float64(t180)).values
         tid += 1
         recs.append({"tid": tid, "kind": "combine", "dt": enc(0.01), "ns": enc_seq(ns), "we": enc_seq(we), "theta": enc(theta),
                      "out": enc_seq(out), "out180": enc_seq(out180)})
@@ -135,6 +142,11 @@ def build_traces(path, tier, seed):
         ns, _ = gen.record(rng, n, amp=1.0)
         we, _ = gen.record(rng, n, amp=1.0)
         off = float([0.0, 30.0, -45.0, 200.0, rng.uniform(-180, 360)][i % 5])
+        off_arg = off
+        if float(off).is_integer() and rng.integers(2):
+            cands = [t_ for t_ in (np.int8, np.uint8, np.int16, np.int64, np.float32) if np.can_cast(np.min_scalar_type(int(off)), t_)]
+            if cands:
+                off_arg = cands[int(rng.integers(len(cands)))](off)
         points = int([2, 3, 7, 10, 100][i % 5]) if tier == "thorough" else int([2, 3, 7, 10][i % 4])
         m = measures[i % 5]
         if i % 3 == 2:
@@ -158,17 +170,17 @@ def build_traces(path, tier, seed):
             ns, we = np.array(a.values, dtype=float), np.array(b.values, dtype=float)
         ns, we = np.asarray(ns, dtype=float), np.asarray(we, dtype=float)
         if m == "pga":
-            ang, vals = multiple.compute_rotated(a, b, angle_off_ns=off, parameter="pga", points=gen.intlike(rng, points))
+            ang, vals = multiple.compute_rotated(a, b, angle_off_ns=off_arg, parameter="pga", points=gen.intlike(rng, points))
         elif m == "pgv":
-            ang, vals = multiple.compute_rotated(a, b, angle_off_ns=off, func=lambda s: s.pgv, points=gen.intlike(rng, points))
+            ang, vals = multiple.compute_rotated(a, b, angle_off_ns=off_arg, func=lambda s: s.pgv, points=gen.intlike(rng, points))
         elif m == "arias":
-            ang, vals = multiple.compute_rotated(a, b, angle_off_ns=off, parameter="arias_intensity", points=gen.intlike(rng, points))
+            ang, vals = multiple.compute_rotated(a, b, angle_off_ns=off_arg, parameter="arias_intensity", points=gen.intlike(rng, points))
         elif m == "velocity":
-            ang, vals = multiple.compute_rotated(a, b, off, "velocity", None, points)        # positional; array-valued attribute
+            ang, vals = multiple.compute_rotated(a, b, off_arg, "velocity", None, points)        # positional; array-valued attribute
             vals = np.asarray(vals)
             vals = [enc_seq(r) for r in vals] if vals.ndim == 2 else enc_seq(vals)
         else:
-            ang, vals = multiple.compute_rotated(a, b, angle_off_ns=off, func=im.calc_cav, points=gen.intlike(rng, points))
+            ang, vals = multiple.compute_rotated(a, b, angle_off_ns=off_arg, func=im.calc_cav, points=gen.intlike(rng, points))
         if m != "velocity":
             vals = enc_seq(vals)
         tid += 1
